@@ -169,3 +169,19 @@ Definition inv_b (p : Position) : bool :=
    proofs/MenCount.v) *)
 Definition invs_b (p : Position) : bool :=
   inv_b p && (popcount (c_us p) <=? 16) && (popcount (c_them p) <=? 16).
+
+(* ------------------------------------------------------------------ en-passant consistency (proofs/EpRetro.v): the double push the
+   en-passant square records can have been the last move -- the square the pawn came from is vacant and, with the pawn put
+   back there, the side to move is not in check (before the push it was the other side's turn).  Kept by every generated
+   move and null move; the generator relies on it (an en-passant capture is not tested for an attack uncovered through the
+   captured pawn's square). *)
+Definition unpush (p : Position) (e : N) : Position :=
+  let bb := N.lor (bit (e - 8)) (bit (e + 8)) in
+  xor_piece (xor_them p bb) PAWN bb.
+Definition ep_ok_b (p : Position) : bool :=
+  match ep p with
+  | None => true
+  | Some e => negb (is_set (occupied p) (e + 8))
+              && negb (is_sq_attacked (unpush p e) (lsb (N.land (kings p) (c_us p))) false)
+  end.
+Definition invr_b (p : Position) : bool := invs_b p && ep_ok_b p.
